@@ -184,6 +184,10 @@ type Gauges struct {
 // TwinObs is the observation of the same scan on a cloned world with a fresh controller (C02 release).
 type TwinObs struct {
 	Writes map[string]int `json:"writes"` // per group: number of mutating calls the twin made
+	// the same scan on a clone in which no node carries the no-delete annotation (C10): instances it terminated, per group
+	NoAnnotTerminated map[string][]string `json:"noAnnotTerminated"`
+	// and on an exact clone (annotations kept): what differs between the two clones is due to the annotation alone
+	CloneTerminated map[string][]string `json:"cloneTerminated"`
 }
 
 func SortedKeys[V any](m map[string]V) []string {
